@@ -1727,8 +1727,7 @@ impl XmlDocument {
         }
 
         if let Some(d) = value.prolog.declaration_doc.as_ref() {
-            let doc_type = XmlDocumentTypeDeclaration::node(d, &context);
-            document.borrow_mut().push_child(doc_type?);
+            XmlDocumentTypeDeclaration::node(d, &context)?;
         }
 
         for t in value.prolog.tails.as_slice() {
@@ -1935,6 +1934,12 @@ impl XmlDocumentTypeDeclaration {
         });
         let declaration_id = declaration.borrow().id();
 
+        // Attach the declaration to the document before its children are read, so that entity
+        // references in attribute defaults resolve against the entities declared so far.
+        let node: Rc<XmlItem> = Rc::new(declaration.clone().into());
+        declaration.borrow().context.add_item(&node);
+        context.document().borrow().push_child(node.clone());
+
         for subset in &value.internal_subset {
             match subset {
                 parser::InternalSubset::Markup(v) => match v {
@@ -1981,8 +1986,6 @@ impl XmlDocumentTypeDeclaration {
             }
         }
 
-        let node: Rc<XmlItem> = Rc::new(declaration.clone().into());
-        declaration.borrow().context.add_item(&node);
         Ok(node)
     }
 
